@@ -12,6 +12,7 @@ import OmbottModel.Drv.Wsgi
 import OmbottModel.Drv.Forms
 import OmbottModel.Drv.RouterEdit
 import OmbottModel.Drv.TsProps
+import OmbottModel.Drv.EnvCache
 /-! Dispatch of a protocol line to the area handlers.  `State` holds the few models that are
 driven as state machines across lines (router, multipart feed, header store). -/
 namespace Drv
@@ -43,6 +44,7 @@ def step (st : State) (line : String) : State × String :=
     | "forms" => pure? (Forms.handle rest)
     | "redit" => pure? (RouterEdit.handle rest)
     | "tsprops" => pure? (TsProps.handle rest)
+    | "envcache" => pure? (EnvCache.handle rest)
     | _ => (st, "bad-op")
 
 end Drv
